@@ -85,6 +85,25 @@ def profiler_sweep(tier, seed=0):
             "samples": [{"native_case": {"graph": [["T", []], ["T", [0]]], "request": "b", "mode": "nested"}}], "failures": fails[:4]}
 
 
+def _empty_array():
+    import numpy as np
+    return np.zeros(0)
+
+
+def _same(a, b):
+    """value equality that also works for (tuples of) NumPy arrays"""
+    if isinstance(a, (tuple, list)) and isinstance(b, (tuple, list)):
+        return len(a) == len(b) and type(a) is type(b) and all(_same(x, y) for x, y in zip(a, b))
+    if hasattr(a, "shape") or hasattr(b, "shape"):
+        import numpy as np
+        return hasattr(a, "shape") and hasattr(b, "shape") and a.shape == b.shape and bool(np.array_equal(a, b))
+    return a == b and type(a) is type(b)
+
+
+def _total(a):
+    return float(a.sum())
+
+
 def cache_sweep(tier, seed=0):
     """Cache callback: same values with and without it, also when cached results are reused (cachey stubbed)."""
     t0 = time.time()
@@ -112,6 +131,8 @@ def cache_sweep(tier, seed=0):
         ({"a": 1, "b": (inc, "a"), "c": (inc, "b")}, ["c", ["b", "c"], ["a", "c"]]),
         ({"a": (inc, 0), "b": (inc, "a"), "c": (add, "a", "b"), "d": (add, "c", 100)}, ["d", ["c", "d"], ["a", "d"], ["b"]]),
         ({"x": (inc, 1), "y": (inc, "x"), "z": (add, "y", "x"), "w": (add, "z", 10), "v": (inc, "w")}, [["z", "v"], "v", ["y", "w"]]),
+        # intermediate results that occupy zero bytes (an empty NumPy array) and falsy results (0, '')
+        ({"e": (_empty_array,), "s": (_total, "e"), "t": (add, "s", 1), "n": (add, "s", 0), "u": (str.strip, " ")}, ["t", ["s", "t"], ["n", "u"], ["u"]]),
     ]
     try:
         for dsk, requests in graphs:
@@ -125,7 +146,7 @@ def cache_sweep(tier, seed=0):
                             try:
                                 with cache:
                                     got = get(dict(dsk), req)
-                                msg = None if got == want else f"with the Cache callback the result is {got!r}, without it {want!r}"
+                                msg = None if _same(got, want) else f"with the Cache callback the result is {got!r}, without it {want!r}"
                             except Exception as e:  # noqa
                                 msg = f"{type(e).__name__}: {e}"
                             if msg:
@@ -161,7 +182,7 @@ def cache_sweep(tier, seed=0):
                                 want = get_sync(dict(dsk), req)
                                 with cache:
                                     got = get(dict(dsk), req)
-                                msg = None if got == want else f"after warming the cache with {warm!r}: with the Cache callback the result is {got!r}, without it {want!r}"
+                                msg = None if _same(got, want) else f"after warming the cache with {warm!r}: with the Cache callback the result is {got!r}, without it {want!r}"
                             except Exception as e:  # noqa
                                 msg = f"{type(e).__name__}: {e}"
                             if msg:
@@ -170,7 +191,7 @@ def cache_sweep(tier, seed=0):
         if stubbed:
             sys.path.remove(stub_dir)
     return {"function": "dask/cache.py:Cache (real code; third-party `cachey` replaced by a small stand-in: stated assumption)", "bounded": True,
-            "bound": {"graphs": 3, "capacities": [1e9, 400, 200, 120], "rounds reusing the cache": 3, "schedulers": "sync, threaded"},
+            "bound": {"graphs": "4 (one with zero-byte and falsy results)", "capacities": [1e9, 400, 200, 120], "rounds reusing the cache": 3, "schedulers": "sync, threaded"},
             "cases": cases, "distinct_nontrivial": cases, "failures_found": len(fails), "wall_s": round(time.time() - t0, 2),
             "samples": [{"native_case": {"request": ["c", "d"], "capacity": 200, "round": 1}}], "failures": fails[:4]}
 
